@@ -36,9 +36,9 @@ CHEAP_KINDS = ['cpa', 'cpa_alt', 'dpa', 'attack_cpa']
 # rejection kinds per distinguisher family.  'first' = only a fault when nothing has been accepted yet;
 # 'later' = only a fault after an accepted batch (as a first call it would simply define the shape).
 WHYS = {
-    'cpa': ['traces_list', 'data_list', 'traces_3d', 'traces_1d', 'traces_str', 'data_str', 'rows_more', 'rows_less', 'length', 'words'],
-    'cpa_alt': ['traces_list', 'data_list', 'traces_3d', 'traces_1d', 'traces_str', 'data_str', 'rows_more', 'rows_less', 'length', 'words'],
-    'dpa': ['traces_list', 'data_list', 'traces_3d', 'traces_1d', 'traces_str', 'data_str', 'rows_more', 'rows_less', 'length', 'words', 'dpa_range', 'dpa_dtype', 'data_float'],
+    'cpa': ['traces_text_late', 'data_text_late', 'traces_list', 'data_list', 'traces_3d', 'traces_1d', 'traces_str', 'data_str', 'rows_more', 'rows_less', 'length', 'words'],
+    'cpa_alt': ['traces_text_late', 'data_text_late', 'traces_list', 'data_list', 'traces_3d', 'traces_1d', 'traces_str', 'data_str', 'rows_more', 'rows_less', 'length', 'words'],
+    'dpa': ['traces_text_late', 'data_text_late', 'traces_list', 'data_list', 'traces_3d', 'traces_1d', 'traces_str', 'data_str', 'rows_more', 'rows_less', 'length', 'words', 'dpa_range', 'dpa_dtype', 'data_float'],
     'anova': ['traces_list', 'data_list', 'traces_3d', 'traces_1d', 'traces_str', 'data_str', 'traces_float16', 'traces_complex', 'rows_more', 'rows_less', 'length', 'words', 'data_float', 'data_int64', 'auto_gt255', 'auto_neg'],
     'tbuild': ['traces_list', 'data_list', 'traces_3d', 'traces_1d', 'traces_str', 'data_str', 'traces_float16', 'traces_complex', 'rows_more', 'rows_less', 'length', 'two_words', 'data_float', 'data_int64', 'auto_gt255', 'auto_neg'],
     'tmatch': ['traces_list', 'data_list', 'traces_3d', 'traces_1d', 'traces_str', 'data_str', 'rows_more', 'rows_less', 'length', 'before_build', 'hyp_undeclared'],
@@ -49,7 +49,7 @@ for _k in ('nicv', 'snr', 'mia'):
 WHYS['tmatch_dpa'] = WHYS['tmatch_static'] = WHYS['tmatch']
 WHYS['attack_cpa'] = WHYS['attack_snr'] = WHYS['attack']
 # whole run() calls on a container (with a convergence step): refused on their first batch
-WHYS['run_cpa'] = WHYS['run_snr'] = ['sf_raises', 'length', 'words']
+WHYS['run_cpa'] = WHYS['run_snr'] = ['sf_raises', 'length', 'words', 'sf_raises_later']
 FIRST_ONLY = {'dpa_range', 'dpa_dtype', 'auto_gt255', 'auto_neg', 'before_build'}
 LATER_ONLY = {'length', 'words'}
 
@@ -92,12 +92,19 @@ class _Obj:
                                                model=scared.Value(), precision=prec, partitions=list(case['partitions']))
         elif kind.startswith(('attack', 'run')):
             self.fail_next = [False]
-            fail = self.fail_next
+            self.fail_after = [None]          # raise on the (k+1)-th batch of a run
+            self.rows_log = []
+            fail, fail_after, rows_log = self.fail_next, self.fail_after, self.rows_log
 
             @scared.attack_selection_function(guesses=range(2))
             def sf(d, guesses):
                 if fail[0]:
                     raise RuntimeError('injected selection function failure')
+                if fail_after[0] is not None:
+                    if fail_after[0] == 0:
+                        raise RuntimeError('injected selection function failure on a later batch')
+                    fail_after[0] -= 1
+                rows_log.append(d.shape[0])
                 return np.stack([d, d ^ 1], axis=1)
             ckw = {'convergence_step': int(case['convergence_step'])} if case.get('convergence_step') else {}
             if kind in ('attack_cpa', 'run_cpa'):
@@ -153,6 +160,18 @@ def _bad_args(case, op, last_good):
         return np.full(t.shape, 'x', dtype='U1'), d          # a 2-D array of the wrong kind (text)
     if why == 'data_str':
         return t, np.full(d.shape, 'x', dtype='U1')
+    if why in ('traces_text_late', 'data_text_late'):
+        # thousands of rows given as text that converts to numbers, except one entry far down the batch (beyond row 4096)
+        rows = 4600
+        reps = -(-rows // t.shape[0])
+        tt, dd = np.tile(t, (reps, 1))[:rows], np.tile(d, (reps,) + (1,) * (d.ndim - 1))[:rows]
+        if why == 'traces_text_late':
+            tt = tt.astype('U12')
+            tt[4500, 0] = 'n/a'
+        else:
+            dd = dd.astype('U12')
+            dd[(4500,) + (0,) * (dd.ndim - 1)] = 'n/a'
+        return tt, dd
     if why == 'traces_float16':
         return t.astype('float16'), d               # the compiled kernels have no half-precision version: refused inside the kernel call
     if why == 'traces_complex':
@@ -194,7 +213,7 @@ def _bad_args(case, op, last_good):
         d2 = d.copy()
         d2[-1, -1] = int(max(case['partitions'])) + 3
         return t, d2
-    if why in ('before_build', 'sf_raises', 'rows_meta'):
+    if why in ('before_build', 'sf_raises', 'rows_meta', 'sf_raises_later'):
         return t, d
     raise ValueError(why)
 
@@ -229,6 +248,7 @@ def run_history(ctx, case):
     rejected_first_then_accept = False
     pending_first_reject = False
     rejections = 0
+    loose = False
     labels = ['kind:' + kind]
     for step, op in enumerate(case['ops']):
         o = op['op']
@@ -266,6 +286,10 @@ def run_history(ctx, case):
                 real.fail_next[0] = True
             if is_attack and why == 'rows_meta':
                 args = (args[0], np.concatenate([args[1], args[1][:1]], axis=0))
+            if is_run and why == 'sf_raises_later':
+                # the run is refused on its second or third batch: the batches before it were accepted and stay accepted
+                real.fail_after[0] = 1 + step % 2
+                del real.rows_log[:]
             try:
                 real.update(*args)
                 raised = False
@@ -274,6 +298,15 @@ def run_history(ctx, case):
             finally:
                 if is_attack:
                     real.fail_next[0] = False
+                    real.fail_after[0] = None
+            if raised and is_run and why == 'sf_raises_later':
+                acc_rows = int(sum(real.rows_log))
+                if acc_rows > 0:
+                    twin.update(args[0][:acc_rows], args[1][:acc_rows])
+                    accepted_rows += acc_rows
+                    accepted_calls += 1
+                    loose = True          # the twin finished a run, the analysis under test did not: only counts and compute() are comparable from here on
+                    labels.append('run_refused_on_a_later_batch')
             if raised:
                 rejections += 1
                 labels.append('why:' + why)
@@ -303,7 +336,7 @@ def run_history(ctx, case):
                 _cmp(case, step, ra, twin.compute())
         if real.processed != accepted_rows:
             raise Violation('step %d (%s): processed_traces=%s but accepted rows=%d' % (step, op.get('why', o), real.processed, accepted_rows), case)
-        if is_run:
+        if is_run and not loose:
             # what the analysis exposes (results, scores, convergence traces) is that of the accepted runs only
             for attr in ('results', 'scores', 'convergence_traces'):
                 va, vb = getattr(real.o, attr), getattr(twin.o, attr)
